@@ -3,6 +3,7 @@ package j5convert
 import (
 	"errors"
 	"fmt"
+	"math"
 	"unicode"
 
 	"buf.build/gen/go/bufbuild/protovalidate/protocolbuffers/go/buf/validate"
@@ -497,6 +498,28 @@ func buildField(ww *conversionVisitor, node sourcewalk.FieldNode) (*descriptorpb
 
 			if st.Integer.Rules.ExclusiveMaximum != nil && !(*st.Integer.Rules.ExclusiveMaximum) && st.Integer.Rules.Maximum == nil {
 				return nil, fmt.Errorf("integer rules: exclusive maximum requires maximum to be set")
+			}
+
+			// the bounds are converted to the width of the field below: one
+			// that the format cannot hold would silently become another number
+			for _, bound := range []*int64{st.Integer.Rules.Minimum, st.Integer.Rules.Maximum} {
+				if bound == nil {
+					continue
+				}
+				var fits bool
+				switch st.Integer.Format {
+				case schema_j5pb.IntegerField_FORMAT_INT32:
+					fits = *bound >= math.MinInt32 && *bound <= math.MaxInt32
+				case schema_j5pb.IntegerField_FORMAT_UINT32:
+					fits = *bound >= 0 && *bound <= math.MaxUint32
+				case schema_j5pb.IntegerField_FORMAT_UINT64:
+					fits = *bound >= 0
+				default:
+					fits = true
+				}
+				if !fits {
+					return nil, fmt.Errorf("integer rules: bound %d is outside the range of %v", *bound, st.Integer.Format)
+				}
 			}
 
 			rules := &validate.FieldConstraints{}
